@@ -38,6 +38,7 @@ import (
 	"sort"
 	"strings"
 	"sync"
+	"sync/atomic"
 	"testing"
 	"time"
 
@@ -500,8 +501,17 @@ func c08Sign(r *verifkit.Run, f *c08Fixture, c *c08Case, rng *rand.Rand, watchdo
 	desc := c.desc()
 	w := c.w
 	logger := &testutils.MockLogger{}
-	ctx, cancel := context.WithTimeout(context.Background(), watchdog)
+	// watchdog as a timer: a run cut by it is inconclusive; a run stopped by
+	// the monitor because a member failed with an error of its own is not
+	ctx, cancel := context.WithCancel(context.Background())
 	defer cancel()
+	var watchdogFired int32
+	wd := time.AfterFunc(watchdog, func() {
+		atomic.StoreInt32(&watchdogFired, 1)
+		cancel()
+	})
+	defer wd.Stop()
+	var stopOnce sync.Once
 	// unique per case: the attempt number part of the session id
 	sessionID := fmt.Sprintf("%v-%v", c.msg.Text(16), c.idx)
 	k := len(w.signers)
@@ -525,6 +535,11 @@ func c08Sign(r *verifkit.Run, f *c08Fixture, c *c08Case, rng *rand.Rand, watchdo
 		wg.Add(1)
 		go func() {
 			defer wg.Done()
+			defer func() {
+				if results[qi].err != nil && atomic.LoadInt32(&watchdogFired) == 0 {
+					stopOnce.Do(func() { time.AfterFunc(3*time.Second, cancel) })
+				}
+			}()
 			r.Guard("sign:", desc, func() {
 				// arguments as signingExecutor.sign derives them from the signer
 				results[qi].r, results[qi].err = signing.Execute(
@@ -540,7 +555,7 @@ func c08Sign(r *verifkit.Run, f *c08Fixture, c *c08Case, rng *rand.Rand, watchdo
 		}()
 	}
 	wg.Wait()
-	expired := ctx.Err() != nil
+	expired := atomic.LoadInt32(&watchdogFired) == 1
 	nontrivial := len(w.excluded) > 0 || fmt.Sprint(c.quorum) != fmt.Sprint(c08Subsets(k, f.gp.HonestThreshold)[0])
 	r.Case(desc, nontrivial)
 
